@@ -519,7 +519,13 @@ fn apply_sack_to_sent_queue(
     let before_head = sent_queue.keys().next().cloned();
 
     // 0. Filter out late SACKs
-    if let Some(&lowest_tsn) = sent_queue.keys().next()
+    // (the earliest outstanding TSN in serial-number order: while the queue straddles the
+    // 2^32 wrap the map's first key is a post-wrap TSN, not the earliest one)
+    let lowest_outstanding = sent_queue
+        .keys()
+        .copied()
+        .reduce(|a, b| if (b.wrapping_sub(a) as i32) < 0 { b } else { a });
+    if let Some(lowest_tsn) = lowest_outstanding
         && (cumulative_tsn_ack.wrapping_sub(lowest_tsn.wrapping_sub(1)) as i32) < 0
     {
         // This SACK is even older than our earliest outstanding TSN,
